@@ -544,7 +544,7 @@ def _known_order_tie(ia, recs):
     return sum(1 for r in tied if r.genomic_region[0] == m) > 1
 
 
-@bounded("C08.order_independence", ["C08"], note="MultimapResolver.resolve (take_best) on every multiset of <= 3 (thorough: 4) records "
+@bounded("C08.order_independence", ["C08"], shards=4, note="MultimapResolver.resolve (take_best) on every multiset of <= 3 (thorough: 4) records "
          "drawn from a 33-record universe (5 assignment types x primary/secondary x 3 loci x penalties), in every order: the set of "
          "kept records (modulo ==) must not depend on the order")
 def c08_order(tier, rng):
